@@ -74,7 +74,7 @@ func DecodeRuns(bs []byte, w int) ([]Run, error) {
 				break
 			}
 			shift += 7
-			if shift > 35 {
+			if shift > 21 {
 				return nil, fmt.Errorf("%w: run header too long", ErrMalformed)
 			}
 		}
